@@ -117,6 +117,11 @@ func (s *Stats) Fault(k string) {
 	s.Faults[k]++
 	s.mu.Unlock()
 }
+func (s *Stats) HasFault(k string) bool {
+	s.mu.Lock()
+	defer s.mu.Unlock()
+	return s.Faults[k] > 0
+}
 func (s *Stats) Probe(k string) {
 	if s.Off {
 		return
@@ -228,7 +233,17 @@ func (k *Kernel) setRank(rank uint64) {
 // tieSeq orders goroutines that wait at the same seam at the same instant: timer callbacks by
 // the creation order of their timers, all others (started by go statements of a goroutine
 // that runs alone) by their ids, after the timer callbacks.
-func (k *Kernel) tieSeq() uint64 {
+func (k *Kernel) tieSeq(class string) uint64 {
+	// a socket has one reader: no tie is possible there, and that is where the library
+	// recurses deeply (STUNConn.ReadFrom, one level per segment) - runtime.Stack walks the
+	// whole stack to count the frames it elides
+	if strings.HasSuffix(class, ":Read") || strings.HasSuffix(class, ":ReadFrom") || strings.HasSuffix(class, ":Accept") {
+		return 0
+	}
+	var pcs [48]uintptr
+	if runtime.Callers(0, pcs[:]) == len(pcs) {
+		return 0 // deep stack: arrival order decides (no such site has shown a tie)
+	}
 	id := goid()
 	k.mu.Lock()
 	r, ok := k.ranks[id]
@@ -387,7 +402,7 @@ func (k *Kernel) YieldT(class, ident, tie string) {
 			ek += "#" + tie
 		}
 		// same seam, same instant, same tie: oldest goroutine first
-		k.atSeq(k.Now(), ek, k.tieSeq(), func() { close(ch) })
+		k.atSeq(k.Now(), ek, k.tieSeq(class), func() { close(ch) })
 		<-ch
 		return
 	}
